@@ -436,7 +436,11 @@ seq_t dtw_warping_paths{{ suffix }}{{ suffix2 }}(seq_t *wps,
         seq_t mir_value = {{infinity}};
         idx_t mir_rel = 0;
         seq_t mic_value = {{infinity}};
+        {%- if "affinity" in suffix %}
         idx_t mic = 0;
+        {%- else %}
+        idx_t mic = l2;  // nothing to mark if no end point is found in the last row
+        {%- endif %}
         // Find smallest value in last column
         if (settings->psi_1e != 0) {
             wpsi = final_wpsi;
